@@ -542,6 +542,8 @@ func (s *configurationStore) store(ctx context.Context, store _map.Map[string, *
 	prunedValues := tree.PrunePathMap(values, true)
 	transaction := store.Transaction(ctx)
 	for _, pv := range values {
+		// The transaction keeps the pointer until Commit: every value needs a variable of its own
+		pv := pv
 		entry, err := store.Get(ctx, pv.Path)
 		if err != nil {
 			err = errors.FromAtomix(err)
